@@ -64,7 +64,11 @@ func c20Gen(r *Rand, tier string) interface{} {
 	for f := 0; f < nf; f++ {
 		file := c20File{Path: fmt.Sprintf("%sf%d.json", dirs[r.Intn(len(dirs))], f), Values: map[string]string{}, Emitter: r.Chance(1, 3)}
 		// prefix-free keys: leaves f<f>.k<i> and f<f>.g<i>.x
-		for k, n := 0, r.Intn(5); k < n; k++ {
+		nkeys := r.Intn(5)
+		if r.Chance(1, 5) {
+			nkeys = 20 + r.Intn(60) // big files: size-dependent paths in the store must be reached too
+		}
+		for k, n := 0, nkeys; k < n; k++ {
 			key := fmt.Sprintf("f%d.k%d", f, k)
 			if r.Chance(1, 3) {
 				key = fmt.Sprintf("f%d.g%d.x", f, k)
